@@ -130,14 +130,14 @@ theorem ginv_hostStep {c : Cfg} {sc : Script} {h : Host} (now : Nat) (hg : GInv 
   | wake =>
     have hself : ∀ x : Host, GInv c sc x → GInv c sc (x.selfTimeout c now) := by
       intro x hx; simp only [Host.selfTimeout]; split
-      · exact ginv_frame hx rfl rfl (by simp)
+      · exact ginv_frame hx (by simp) (by simp) (by simp)
       · exact hx
     simp only [hostStep]
     apply hself
     simp only [Host.wakeCore]
     split
     · split
-      · exact ginv_frame hg rfl rfl (by simp)
+      · exact ginv_frame hg (by simp) (by simp) (by simp)
       · exact ginv_pollRound now hg.subO hg.subE hg.errC
     · split
       · exact ginv_oneRound now hg.subO hg.subE hg.errC
